@@ -23,6 +23,11 @@ type srcSpec struct {
 	FailOnce bool // the source reports its error from one Read call only and would go on afterwards
 	NoCloser bool
 	CloseErr bool // the source's Close reports an error (it is closed all the same)
+	// PreClosed: the source is an HTTP body that was read to its end and closed by its owner before the stream reaches
+	// it; Read reports http.ErrBodyReadAfterClose, which MultiReaderCloser.Read documents as "the same as io.EOF". It
+	// contributes no bytes and has been closed once already: the stream must not close it a second time. (Only used
+	// with consumers that go through Read; WriteTo reports that error like any other.)
+	PreClosed bool
 }
 
 type multiCase struct {
@@ -41,11 +46,21 @@ func checkMulti(c multiCase) string {
 	failed := false
 	var wantErr error
 	firstUnfinished := len(c.Srcs)
+	anyFault := false // with a failing source the stream stops early and Close closes whatever it had not reached: pre-closed bodies are only modelled in fault-free cases
+	for _, s := range c.Srcs {
+		if s.FailAt >= 0 && s.FailAt <= s.Len {
+			anyFault = true
+		}
+	}
 	for i, s := range c.Srcs {
 		d := data(s.Len, byte(i+1)*0x11)
 		sr := &vk.ScriptReader{Data: d, Chunks: s.Chunks, EOFWith: s.EOFWith, FailAt: s.FailAt, FailWith: s.FailWith, FailOnce: s.FailOnce, Err: vk.FaultErrors[s.FailErr%len(vk.FaultErrors)]}
 		if s.CloseErr {
 			sr.CloseErr = errSrcClose
+		}
+		if s.PreClosed && !s.NoCloser && !anyFault && !(len(c.Consumer) == 1 && c.Consumer[0] < 0) {
+			sr.BodyClosed, sr.Closes = true, 1
+			d = nil
 		}
 		srcs = append(srcs, sr)
 		if s.NoCloser {
@@ -138,6 +153,7 @@ func genSrc(rt *rapid.T, label string, allowFault bool) srcSpec {
 		FailAt:   -1,
 		NoCloser: rapid.IntRange(0, 4).Draw(rt, label+".nocloser") == 0,
 	}
+	s.PreClosed = rapid.IntRange(0, 7).Draw(rt, label+".preClosed") == 0
 	if allowFault && rapid.IntRange(0, 7).Draw(rt, label+".fault") == 0 {
 		s.FailAt = rapid.IntRange(0, s.Len).Draw(rt, label+".failAt")
 		s.FailWith = rapid.Bool().Draw(rt, label+".failWith")
@@ -203,6 +219,7 @@ func TestMultiSweep(t *testing.T) {
 			}
 		}
 	}
+	specs = append(specs, srcSpec{Len: 0, FailAt: -1, PreClosed: true}) // an HTTP body already read and closed by its owner
 	consumers := [][]int{nil, {-1}, {-2}, {1}, {3}}
 	idx := 0
 	var rec func(prefix []srcSpec, depth int)
